@@ -15,12 +15,13 @@ LEVEL = 'proof'
 
 def cases(ctx):
     names = ['prog.py', 'prög_ünï.py', 'with space.py']
-    units = [None, '1e-3', '1e-6', '1e-9', '0.5']
+    units = [None, '1e-3', '1e-6', '1e-8', '1e-9', '0.5']
     out = []
     for i, (nm, u, z) in enumerate([(n, u, z) for n in names for u in units for z in (False, True)]):
         out.append({'name': nm, 'n': 3 + (i % 7) * 5, 'unit': u, 'z': z})
     if ctx.quick:
-        out = out[:4] + ctx.rng.fork('c11').sample(out[4:], 8)
+        wide = [c for c in out if c['unit'] == '1e-8'][:2]      # a unit in which the slow line needs the wide '%5.3g' cells
+        out = out[:3] + wide + ctx.rng.fork('c11').sample([c for c in out[3:] if c not in wide], 7)
     return out
 
 
@@ -28,10 +29,29 @@ def summary_of(text):
     return [l for l in text.splitlines() if ' seconds - ' in l]
 
 
+def data_check(c, r, text, loaded, opts, ou):
+    """every number the channel prints agrees with the saved statistics (the independent report parser of C10)"""
+    import c10
+    stats = []
+    for k, v in loaded['timings'].items():
+        path, first, name = k.rsplit('|', 2)
+        stats.append([path.rsplit('/', 1)[-1], int(first), name, v])
+    case = {'files': {c['name']: r['prog_text']}, 'stats': stats, 'unit': loaded['unit'], 'output_unit': ou, 'opts': opts}
+    return c10.oracle(case, {'error': None, 'text': text})
+
+
 def oracle(c, r):
     bad = []
     if r.get('kernprof_view') is None:
         return [{'no --view output': True}]
+    ou = float(c['unit']) if c['unit'] else 1e-6
+    for d in data_check(c, r, r['kernprof_view'], r['loaded'], {'stripzeros': c['z'], 'details': True, 'summarize': False, 'sort': False}, ou)[:2]:
+        bad.append({'kernprof --view does not present the saved data': d})
+    for d in data_check(c, r, r['live_print_stats'], r['live'], {'stripzeros': False, 'details': True, 'summarize': False, 'sort': False}, None)[:2]:
+        bad.append({'live print_stats does not present the live data': d})
+    if r.get('explicit_txt') and r.get('explicit_loaded'):
+        for d in data_check(c, r, r['explicit_txt'], r['explicit_loaded'], {'stripzeros': True, 'details': True, 'summarize': True, 'sort': True}, None)[:2]:
+            bad.append({'explicit .txt does not present the saved data': d})
     if r['kernprof_view'] != r['viewer_cli']:
         bad.append({'kernprof --view differs from `python -m line_profiler` on the saved file': [r['kernprof_view'][:400], r['viewer_cli'][:400], r['viewer_cli_err']]})
     if r['live'] != r['live_reloaded']:
@@ -92,7 +112,7 @@ def run(ctx):
         nontrivial.add(json.dumps(c, sort_keys=True))
     ctx.coverage.update({
         'evaluations': len(cs) * 7, 'distinct_nontrivial': len(nontrivial),
-        'rule': 'sessions = 3 script names (ASCII, non-ASCII, with a space) x 5 units (none, 1e-3, 1e-6, 1e-9, 0.5) x skip-zero on/off (sampled in quick); per session '
+        'rule': 'sessions = 3 script names (ASCII, non-ASCII, with a space) x 6 units (none, 1e-3, 1e-6, 1e-8, 1e-9, 0.5) x skip-zero on/off (sampled in quick); per session '
                 '7 channels: kernprof --view, viewer CLI on the saved file, live print_stats, show_text on the reloaded dump, explicit .txt, timestamped .txt, '
                 'viewer -z -t -m on the explicit .lprof (+ stdout summary); every session profiles a called and a never-called function',
         'traces_validated_against_impl': len(cs) * 3 - kdiff, 'correspondence_disagreements': kdiff})
